@@ -6,8 +6,7 @@ suspicious step of the case (diag.go); the fingerprint method is kept only where
 method specific.  A failure the diagnosis cannot name gets the signature '<R>:unclassified:<shape>'
 and is therefore reported as a VIOLATION."""
 
-_BOTH_METHODS = ("skip-after-declined", "skip-after-listjson", "skip-after-killed", "skip-never-ran:key-collision",
-                 "rerun-without-change", "listjson")
+_BOTH_METHODS = ("skip-after-declined", "skip-after-listjson", "skip-after-killed", "rerun-without-change")
 
 
 def _strip_method(label):
